@@ -133,8 +133,16 @@ def run(chk):
     lines, meta = [], []
     for s in vs:
         lines.append("upd semver " + hx(s)); meta.append(("semver", s))
-    pair_set = vs if chk.thorough else vs[:70]
-    for a, b in itertools.product(pair_set[:90], pair_set[:90]):
+    # pairs: boundary magnitudes in every position (a packed or truncated comparison key breaks at powers of 10 / 2),
+    # plus the shapes above
+    mags = ["0", "1", "9", "10", "999", "1000", "1001", "65535", "65536", "99999", "100000", "2147483647"]
+    boundary = []
+    for m in mags:
+        boundary += ["1.%s.0" % m, "1.0.%s" % m, "%s.0.0" % m, "1.%s.%s" % (m, m)]
+    boundary += ["1.2.1001", "1.3.0", "2.0.0", "1.999.999", "1.1000.0", "0.1000.1000", "1.0.0"]
+    rng.shuffle(boundary)
+    pair_set = (vs[:45] + boundary) if not chk.thorough else (vs[:80] + boundary)
+    for a, b in itertools.product(pair_set, pair_set):
         lines.append("upd cmp %s %s" % (hx(a), hx(b))); meta.append(("cmp", a, b))
     for content, asset in checksum_cases(rng, 3000 if chk.thorough else 400):
         lines.append("upd checksum %s %s" % (hx(content), hx(asset))); meta.append(("checksum", content, asset))
